@@ -359,6 +359,12 @@ class Scenario:
             return (EDGES_A, "right"), (EDGES_C, "right"), False
         raise ValueError(v)
 
+    def next_use_spec(self) -> dict:
+        """Everything the next use needs, as plain data: it runs in a new process (child of the
+        zygote forked before this process touched the library)."""
+        keys = ("base", "io_expect", "sd_cls", "case", "expect", "binnings", "fresh_trees", "fresh_meas", "old_trees")
+        return {k_: self.__dict__[k_] for k_ in keys if k_ in self.__dict__}
+
     def next_use_binnings(self) -> list[str]:
         """Labels of the binnings the next use is tried with (one recovery child each)."""
         if self.base not in ("build_trees", "rebuild", "first_open"):
@@ -525,6 +531,21 @@ class Scenario:
             return dict(cls="AS_COMPLETED" if label == "new" else "AS_NEVER_STARTED")
 
 
+class _NextUse:
+    """The next use, rebuilt from ``Scenario.next_use_spec()`` in a pristine process."""
+
+    def __init__(self, spec: dict) -> None:
+        self.__dict__.update(spec)
+
+    next_use = Scenario.next_use
+    _build = staticmethod(Scenario._build)
+    _measure = Scenario._measure
+
+
+def _zy_next_use(spec: dict, workdir: str, which: str) -> dict:
+    return _NextUse(spec).next_use(workdir, which)
+
+
 def _tree_hash(path: str) -> str:
     from sim.creation import tree_hash
 
@@ -557,14 +578,16 @@ def _run_parallel_case(case: dict) -> dict:
     with the processes) and a forked child performs the next use on the copy."""
     from sim import fakemp
     from sim.core import Sim
-    from sim.isolate import run_isolated
+    from sim.isolate import Zygote
 
+    zy = Zygote(dict(next_use=_zy_next_use))  # before this process touches the library
     root = tempfile.mkdtemp(prefix="c08p-", dir=wl.scratch_root())
     try:
         try:
             sc = Scenario(case, root)
         except Exception as err:  # noqa: BLE001
             return dict(verdict="discard", detail=f"scenario not buildable: {type(err).__name__}")
+        spec = sc.next_use_spec()
         work = os.path.join(root, "work")
         snap = os.path.join(root, "snap")
 
@@ -589,7 +612,7 @@ def _run_parallel_case(case: dict) -> dict:
         if not ok:
             return dict(verdict="discard", detail=f"fault-free parallel workload did not complete ({verdict})")
         done_hash = _tree_hash(snap)
-        res = run_isolated(lambda: sc.next_use(snap, "new"))
+        res = zy.call("next_use", spec, snap, "new")
         if res[0] != "ok" or res[1]["cls"] != "AS_COMPLETED":
             return dict(verdict="harness_error", error=f"completed parallel workload is not classified AS_COMPLETED: {res}")
         ks = [case["crash_at"]] if case.get("crash_at") else list(range(1, nsteps))
@@ -614,7 +637,7 @@ def _run_parallel_case(case: dict) -> dict:
                     use_dir = os.path.join(root, "use")
                     shutil.rmtree(use_dir, ignore_errors=True)
                     shutil.copytree(snap, use_dir)
-                r = run_isolated(lambda d=use_dir, wch=which: sc.next_use(d, wch))
+                r = zy.call("next_use", spec, use_dir, which)
                 if r[0] != "ok":
                     sim.cleanup()
                     return dict(verdict="harness_error", error=f"next use after kill-all@{k} failed: {r}")
@@ -641,18 +664,29 @@ def _run_parallel_case(case: dict) -> dict:
             res.update(violation)
         return res
     finally:
+        zy.close()
         shutil.rmtree(root, ignore_errors=True)
 
 
 def run_case(case: dict) -> dict:
     if case["workload"].startswith("par_"):
         return _run_parallel_case(case)
+    from sim.isolate import IsolatedError, Zygote
+
+    zy = Zygote(dict(next_use=_zy_next_use))  # before this process touches the library
     root = tempfile.mkdtemp(prefix="c08-", dir=wl.scratch_root())
     try:
         try:
             sc = Scenario(case, root)
         except Exception as err:  # noqa: BLE001 - e.g. the out-of-scope build_trees defect on a patch without objects in any bin
             return dict(verdict="discard", detail=f"scenario not buildable: {type(err).__name__}")
+        spec = sc.next_use_spec()
+
+        def recover(d, which):
+            try:
+                return 0, zy.call("next_use", spec, d, which, timeout=60)
+            except IsolatedError as err:
+                return 1, ("died", str(err))
         log = os.path.join(root, "oplog.txt")
         work = os.path.join(root, "work")
 
@@ -674,12 +708,15 @@ def run_case(case: dict) -> dict:
         if os.path.exists(log):
             os.remove(log)
         code, payload = crashfs.run_child(workload_child(crashfs.MODE_COUNT, -1))
+        if code == 0 and payload is not None and payload[0] == "exception" and "contains no data" in str(payload[2]):
+            # the generated centres leave one without objects: the library refuses (C12), nothing to crash
+            return dict(verdict="discard", detail="fault-free workload refused: a centre without objects")
         if code != 0 or payload is None or payload[0] != "ok":
             return dict(verdict="harness_error", error=f"fault-free workload failed: exit {code}, {payload}")
         nops = int(payload[1])
         oplog = crashfs.read_oplog(log)
         done_hash = _tree_hash(work)
-        code, res = crashfs.run_child(lambda: sc.next_use(work, "new"))
+        code, res = recover(work, "new")
         if code != 0 or res is None or res[0] != "ok" or res[1]["cls"] != "AS_COMPLETED":
             return dict(verdict="harness_error", error=f"completed workload is not classified AS_COMPLETED: exit {code}, {res}")
 
@@ -713,7 +750,7 @@ def run_case(case: dict) -> dict:
                     use_dir = os.path.join(root, "use")
                     shutil.rmtree(use_dir, ignore_errors=True)
                     shutil.copytree(work, use_dir)
-                code, res = crashfs.run_child(lambda d=use_dir, wch=which: sc.next_use(d, wch))
+                code, res = recover(use_dir, which)
                 if code != 0 or res is None or res[0] != "ok":
                     return dict(verdict="harness_error", error=f"recovery child failed at crash@{k}: exit {code}, {res}")
                 verdicts.append((which, res[1]))
@@ -749,4 +786,5 @@ def run_case(case: dict) -> dict:
             res.update(violation)
         return res
     finally:
+        zy.close()
         shutil.rmtree(root, ignore_errors=True)
